@@ -181,3 +181,31 @@ _add(PropertySpec(
     assumptions=[A_FRAME, 'plt.style.context restores rcParams on every exit'],
     not_decided=['totality of matplotlib drawing calls; index safety of colour / marker subscripts (not yet under a full-mode contract)'],
 ))
+
+
+def _c07_frames(run=None):
+    """the tables are a function of (_data, _prms): the stages read nothing else (no global, no generator, no clock)"""
+    fc = _fs.FrameCheck()
+    for q in _fs.STAGES + [f'{_fs.CH}._merge_close_groups']:
+        s = fc.S(q)
+        other = sorted(r for r in s.reads if r.startswith('global:') and r not in _fs.READONLY_GLOBALS) + \
+            sorted(r for r in s.reads if r in ('ghost:RNG', 'ghost:CLOCK', 'ghost:ENV'))
+        fc.ob(q, 'reads_only_chunk_state', not other, str(other))
+    s = fc.S(f'{_fs.AC}.__init__')
+    fc.ob(s.qualname, 'data_field_is_cleanup_result', f'{_fs.AC}._cleanup_pdf' in s.calls and 'self._data' in s.writes, '')
+    return fc
+
+
+_add(PropertySpec(
+    'C07', 'proof',
+    functions=['ampycloud.data.AbstractChunk._cleanup_pdf'],
+    lemmas=['cnt_union', 'prop.C07.rel1', 'prop.C07.rel2', 'prop.C07.below_intact'],
+    extras=[_c07_frames], bounded=_bounded('c07'),
+    explanation=('_cleanup_pdf is symbolically executed from its real AST in the row dialect (symbolic number of rows, index labels, the '
+                 'true label-based meaning of .loc[labels]= and drop(labels)): for every row -- not above MSA+buffer (or NaN): kept unchanged; '
+                 'above with type <= 1: kept as (type 0, NaN); above with type > 1: dropped; flag <=> number of hits above the limit > '
+                 'MAX_HITS_OKTA0 (counts of the two label selections add up: lemma cnt_union); MSA None: identity, flag false.  The two '
+                 'relational clauses are lemmas over that per-row postcondition; that the tables depend on (_data, _prms) only is a frame '
+                 'obligation on the stages.  A bounded native run of both relations accompanies the proof.'),
+    assumptions=[A_REAL, A_FRAME, 'check_data_consistency returns a fresh four-column frame (its contract, see C15); determinism of the stages (A-DET)'],
+))
